@@ -118,7 +118,7 @@ func parseObs(src string) (J, any) {
 		j["pc"] = cr.pc
 		if cr.pc == "syntax" {
 			if m := diagRe.FindStringSubmatch(msg); m != nil {
-				j["tt"] = m[1]
+				j["tt"] = strings.ToLower(m[1])
 				j["line"], _ = strconv.Atoi(m[2])
 				j["pos"], _ = strconv.Atoi(m[3])
 			} else {
@@ -150,8 +150,8 @@ func cdcnLine(out *Out, pid string, caseID int, src string, extra J) (J, any) {
 	conv := make([]any, len(toks))
 	for i, t := range toks {
 		v := t.val
-		if c, ok := controlNames[v]; ok && t.tt == "error" {
-			v = c
+		if c, ok := controlNames[v]; ok {
+			v = c // the scanner renames single control characters for display
 		}
 		tj[i] = J{"tt": t.tt, "n": len([]rune(v)), "line": t.line, "pos": t.pos}
 		if val, ok := convToken(t); ok {
